@@ -756,6 +756,8 @@ def body(chk, db, cfgname):
                     k_ = ini_.get(nm)
                     if k_ is None:
                         continue
+                    if k_[0] != "lit":
+                        raise AnalysisBroken("%s: %s is initialised from %s, not from a literal (named constant / expression not evaluated)" % (c_.qn, nm, str(k_)[:50]))
                     if not (k_[0] == "lit" and abs(float(k_[1]) - list(documented[nm])[0]) <= 1e-12 * abs(list(documented[nm])[0])):
                         wrong_.append("%s = %s (documented default %g)" % (nm, k_[1] if k_[0] == "lit" else "?", list(documented[nm])[0]))
                 site = "%s:default-tolerances" % c_.qn
